@@ -20,10 +20,10 @@ def read_tolerant(path):
     return out
 
 
-def run_entry(exe, entry, tier, wd):
+def run_entry(exe, entry, tier, wd, extra=""):
     """runs the worker for one entry point; when an input kills it (out of memory, stack exhaustion, hang) the input is
     recorded as fatal and a new worker resumes after it.  Returns (merged lines, number of fatal inputs)."""
-    safe = entry.replace("/", "_").replace(".", "_")
+    safe = entry.replace("/", "_").replace(".", "_").replace("+", "_")
     out = os.path.join(wd, "w_%s.ndjson" % safe)
     prog = os.path.join(wd, "w_%s.prog" % safe)
     fatals, after, last = [], "", None
@@ -33,7 +33,7 @@ def run_entry(exe, entry, tier, wd):
         if len(fatals) >= 60 or time.time() - t_start > (150 if tier == 'quick' else 1200):
             capped = True
             break
-        cmd = "ulimit -v %d; exec %s c04 -entry '%s' -tier %s -out %s -progress %s -after '%s'" % (VMEM_KB, exe, entry, tier, out, prog, after)
+        cmd = "ulimit -v %d; exec %s c04 -entry '%s' -tier %s -out %s -progress %s -after '%s' -extra '%s'" % (VMEM_KB, exe, entry, tier, out, prog, after, extra)
         try:
             r = subprocess.run(["bash", "-c", cmd], capture_output=True, text=True, timeout=1500)
             rc, err = r.returncode, r.stderr
@@ -77,15 +77,88 @@ def run_entry(exe, entry, tier, wd):
     return list(merged.values()) + lines + fatals, len(fatals)
 
 
+def build_fuzzer():
+    """the harness' test binary with the fuzz target (fuzz_test.go), instrumented for coverage guidance"""
+    src = os.path.join(vlib.BUILD, "hsrc")
+    out = os.path.join(vlib.BUILD, "vh.test")
+    env = dict(os.environ, GOFLAGS="-mod=mod", GOPROXY="off", GOSUMDB="off", GOTOOLCHAIN="local")
+    r = subprocess.run(["go", "test", "-c", "-tags", "verif", "-fuzz=FuzzEntry", "-o", out, "./cmd/vh"], cwd=src, env=env, capture_output=True, text=True, timeout=1200)
+    if r.returncode != 0:
+        raise vlib.Inconclusive("fuzz target did not build:\n" + r.stderr[-3000:])
+    return out
+
+
+def parse_go_fuzz_file(path):
+    """a crasher saved by Go's fuzzer: 'go test fuzz v1' + one []byte("...") literal"""
+    import ast, re
+    txt = open(path, errors="replace").read()
+    m = re.search(r'\[\]byte\((".*")\)\s*$', txt, re.S)
+    if not m:
+        return None
+    try:
+        v = ast.literal_eval("b" + m.group(1))
+        return bytes(v)
+    except Exception:
+        return None
+
+
+def fuzz_entry(fexe, entry, seconds, wd):
+    """coverage-guided fuzzing of one entry point for `seconds`; returns (path of the file with the inputs found, statistics)"""
+    safe = entry.replace("/", "_").replace(".", "_").replace("+", "_")
+    d = os.path.join(wd, "fz_" + safe)
+    os.makedirs(d, exist_ok=True)
+    found = os.path.join(d, "found.txt")
+    env = dict(os.environ, VH_FUZZ_ENTRY=entry, VH_FUZZ_OUT=found)
+    cmd = ("ulimit -v %d; exec %s -test.run='^$' -test.fuzz='^FuzzEntry$' -test.fuzztime=%ds -test.fuzzcachedir=%s/fc -test.parallel=1"
+           % (VMEM_KB, fexe, seconds, d))
+    try:
+        r = subprocess.run(["bash", "-c", cmd], cwd=d, env=env, capture_output=True, text=True, timeout=seconds + 120)
+        out = r.stdout + r.stderr
+    except subprocess.TimeoutExpired as e:
+        out = (e.stdout or b"").decode(errors="replace") if isinstance(e.stdout, bytes) else (e.stdout or "")
+    import re
+    execs = [int(x) for x in re.findall(r"execs: (\d+)", out)]
+    interesting = [int(x) for x in re.findall(r"total: (\d+)\)", out)]
+    inputs = set()
+    if os.path.exists(found):
+        for l in open(found):
+            if l.strip() or True:
+                inputs.add(l.strip())
+    cd = os.path.join(d, "testdata", "fuzz", "FuzzEntry")
+    if os.path.isdir(cd):
+        for f in os.listdir(cd):
+            b = parse_go_fuzz_file(os.path.join(cd, f))
+            if b is not None:
+                inputs.add(b.hex())
+    extra = os.path.join(d, "extra.txt")
+    with open(extra, "w") as f:
+        for h in sorted(inputs)[:400]:
+            f.write(h + "\n")
+    shutil.rmtree(os.path.join(d, "fc"), ignore_errors=True)
+    return extra, {"execs": max(execs + [0]), "interesting": max(interesting + [0]), "inputs_found": len(inputs)}
+
+
 def main(tier):
     run = vlib.Run("C04", "exploration", tier)
     exe = vlib.build_harness()
     wd = vlib.spec_scratch(["c04", "crypto"])
     try:
         entries = vlib.run_harness(["c04list"]).stdout.split()
+        # ---- coverage-guided fuzzing from the corpus (Go's native fuzzer) as an input generator: 3 s (thorough 45 s) per entry point
+        fexe = build_fuzzer()
+        secs = 45 if run.thorough else 3
+        extras, fstats = {}, {}
+        with concurrent.futures.ThreadPoolExecutor(max_workers=max(2, vlib.NCPU // 2)) as ex:
+            for e, (xf, st) in zip(entries, ex.map(lambda e: fuzz_entry(fexe, e, secs, wd), entries)):
+                extras[e], fstats[e] = xf, st
+        run.extra["fuzzing"] = {"seconds_per_entry_point": secs, "executions": sum(s["execs"] for s in fstats.values()),
+                                "corpus_growth": sum(s["interesting"] for s in fstats.values()), "inputs_handed_to_the_worker": sum(s["inputs_found"] for s in fstats.values()),
+                                "entry_points_with_findings": sorted(e for e, s in fstats.items() if s["inputs_found"])}
+        if run.extra["fuzzing"]["executions"] == 0:
+            raise vlib.Inconclusive("the fuzzer did not execute anything")
         lines = []
         with concurrent.futures.ThreadPoolExecutor(max_workers=8) as ex:
-            for got, nf in ex.map(lambda e: run_entry(exe, e, run.tier, wd), entries):
+            for got, nf in ex.map(lambda e: run_entry(exe, e, run.tier, wd, extras.get(e, "")), entries):
                 lines += got
         aggs = [x for x in lines if x["ev"] == "agg"]
         fails = [x for x in lines if x["ev"] == "fail"]
@@ -134,7 +207,7 @@ def main(tier):
             raise vlib.Inconclusive("no results for entry points %s" % missing)
         run.extra["rejected_lines"] = len(bad)
         run.assumptions += ["panic / hang / allocation are observations; the specification supplies the enumeration and the contract, it does not prove absence of panics outside the enumerated corruption classes",
-                            "coverage-guided fuzzing is not part of this check",
+                            "coverage-guided fuzzing (Go's native fuzzer, 3 s / 45 s per entry point) generates further inputs; they are executed and judged like the enumerated ones",
                             "allocation is measured as the TotalAlloc delta of the call (GC'ed bytes count), time as wall clock of the call"]
     finally:
         shutil.rmtree(wd, ignore_errors=True)
